@@ -328,28 +328,41 @@ theorem safe_depsCheck (W : DataWorld V) (hw : ∀ s, Safe (W.warn s)) (o : Opts
   unfold depsCheck
   safe_auto
 
-theorem safe_ffConflicts (W : DataWorld V) (hw : ∀ s, Safe (W.warn s)) (L : Legacy) (hL : L.aliasCompare = false)
-    (value : V) (xs : List V) : Safe (ffConflicts W L value xs) := by
+theorem safe_caseConflict (W : DataWorld V) (hw : ∀ s, Safe (W.warn s)) (L : Legacy) (hL : L.aliasCompare = false)
+    (first : V) (xs : List V) : Safe (caseConflict W L first xs) := by
   have hac := safe_aliasConflict W hw L hL
   induction xs with
   | nil => exact safe_pure _
   | cons x xs ih =>
-    unfold ffConflicts
+    unfold caseConflict
     safe_auto
     all_goals exact hac _ _
+
+theorem safe_ffConflicts (W : DataWorld V) (hw : ∀ s, Safe (W.warn s)) (L : Legacy) (hL : L.aliasCompare = false)
+    (value : V) (xs : List (V × List V)) : Safe (ffConflicts W L value xs) := by
+  have hac := safe_aliasConflict W hw L hL
+  have hcc := safe_caseConflict W hw L hL
+  induction xs with
+  | nil => exact safe_pure _
+  | cons x xs ih =>
+    obtain ⟨x, variants⟩ := x
+    unfold ffConflicts
+    safe_auto
+    all_goals first | exact hac _ _ | exact hcc _ _
 
 theorem safe_ffFields (W : DataWorld V) (hw : ∀ s, Safe (W.warn s)) (L : Legacy) (hL : L.dataFixed = true) (o : Opts) (ex : List Nat)
     (data : List (Nat × V)) (fs : List (FieldDecl V)) : ∀ a, Safe (ffFields W L o ex data fs a) := by
   simp [Legacy.dataFixed] at hL
   have hpv := safe_parseValue W hw L hL.2 o
   have hfc := safe_ffConflicts W hw L hL.1
+  have hcc := safe_caseConflict W hw L hL.1
   induction fs with
   | nil => intro a; exact safe_pure _
   | cons f fs ih =>
     intro a
     unfold ffFields
     safe_auto
-    all_goals first | exact ih _ | exact hpv _ _ _ | exact hfc _ _
+    all_goals first | exact ih _ | exact hpv _ _ _ | exact hfc _ _ | exact hcc _ _
 
 theorem safe_ffAddition (W : DataWorld V) (hw : ∀ s, Safe (W.warn s)) (o : Opts) (P : ParserDecl V) (used : List Nat)
     (data : List (Nat × V)) : ∀ acc, Safe (ffAddition W o P used data acc) := by
@@ -909,27 +922,40 @@ theorem term_dfMissing (o : Opts) (ex : List Nat) (given : List Nat) (fs : List 
     term_auto
     all_goals exact ih _
 
-theorem term_ffConflicts (W : DataWorld V) (hW : W.Terminates) (L : Legacy)
-    (value : V) (xs : List V) : Term (ffConflicts W L value xs) := by
+theorem term_caseConflict (W : DataWorld V) (hW : W.Terminates) (L : Legacy)
+    (first : V) (xs : List V) : Term (caseConflict W L first xs) := by
   have hac := term_aliasConflict W hW L
   induction xs with
   | nil => exact term_pure _
   | cons x xs ih =>
-    unfold ffConflicts
+    unfold caseConflict
     term_auto
     all_goals exact hac _ _
+
+theorem term_ffConflicts (W : DataWorld V) (hW : W.Terminates) (L : Legacy)
+    (value : V) (xs : List (V × List V)) : Term (ffConflicts W L value xs) := by
+  have hac := term_aliasConflict W hW L
+  have hcc := term_caseConflict W hW L
+  induction xs with
+  | nil => exact term_pure _
+  | cons x xs ih =>
+    obtain ⟨x, variants⟩ := x
+    unfold ffConflicts
+    term_auto
+    all_goals first | exact hac _ _ | exact hcc _ _
 
 theorem term_ffFields (W : DataWorld V) (hW : W.Terminates) (L : Legacy) (o : Opts) (ex : List Nat)
     (data : List (Nat × V)) (fs : List (FieldDecl V)) : ∀ a, Term (ffFields W L o ex data fs a) := by
   have hpv := term_parseValue W hW L o
   have hfc := term_ffConflicts W hW L
+  have hcc := term_caseConflict W hW L
   induction fs with
   | nil => intro a; exact term_pure _
   | cons f fs ih =>
     intro a
     unfold ffFields
     term_auto
-    all_goals first | exact ih _ | exact hpv _ _ _ | exact hfc _ _
+    all_goals first | exact ih _ | exact hpv _ _ _ | exact hfc _ _ | exact hcc _ _
 
 theorem term_ffAddition (W : DataWorld V) (hW : W.Terminates) (o : Opts) (P : ParserDecl V) (used : List Nat)
     (data : List (Nat × V)) : ∀ acc, Term (ffAddition W o P used data acc) := by
@@ -1077,27 +1103,40 @@ theorem quiet_dfMissing (o : Opts) (ex given : List Nat) (fs : List (FieldDecl V
     quiet_auto
     all_goals exact ih _
 
-theorem quiet_ffConflicts (W : DataWorld V) (hW : W.QuietW) (L : Legacy) (value : V) (xs : List V) :
-    Quiet (ffConflicts W L value xs) := by
+theorem quiet_caseConflict (W : DataWorld V) (hW : W.QuietW) (L : Legacy) (first : V) (xs : List V) :
+    Quiet (caseConflict W L first xs) := by
   have hac := quiet_aliasConflict W hW L
   induction xs with
   | nil => exact quiet_pure _
   | cons x xs ih =>
-    unfold ffConflicts
+    unfold caseConflict
     quiet_auto
     all_goals exact hac _ _
+
+theorem quiet_ffConflicts (W : DataWorld V) (hW : W.QuietW) (L : Legacy) (value : V) (xs : List (V × List V)) :
+    Quiet (ffConflicts W L value xs) := by
+  have hac := quiet_aliasConflict W hW L
+  have hcc := quiet_caseConflict W hW L
+  induction xs with
+  | nil => exact quiet_pure _
+  | cons x xs ih =>
+    obtain ⟨x, variants⟩ := x
+    unfold ffConflicts
+    quiet_auto
+    all_goals first | exact hac _ _ | exact hcc _ _
 
 theorem quiet_ffFields (W : DataWorld V) (hW : W.QuietW) (L : Legacy) (o : Opts) (ex : List Nat) (data : List (Nat × V))
     (fs : List (FieldDecl V)) : ∀ a, Quiet (ffFields W L o ex data fs a) := by
   have hpv := quiet_parseValue W hW L o
   have hfc := quiet_ffConflicts W hW L
+  have hcc := quiet_caseConflict W hW L
   induction fs with
   | nil => intro a; exact quiet_pure _
   | cons f fs ih =>
     intro a
     unfold ffFields
     quiet_auto
-    all_goals first | exact ih _ | exact hpv _ _ _ | exact hfc _ _
+    all_goals first | exact ih _ | exact hpv _ _ _ | exact hfc _ _ | exact hcc _ _
 
 theorem quiet_ffAddition (W : DataWorld V) (hW : W.QuietW) (o : Opts) (P : ParserDecl V) (used : List Nat)
     (data : List (Nat × V)) : ∀ acc, Quiet (ffAddition W o P used data acc) := by
@@ -1176,6 +1215,60 @@ theorem C04_body_entered_only_after_parse (W : DataWorld V) (hW : W.QuietW) (L :
   | ok p => exact ⟨p, s1, rfl⟩
   | raise e => simp only at hin hq; rw [hq] at hin; exact absurd hin hnot
   | diverge => simp only at hin hq; rw [hq] at hin; exact absurd hin hnot
+
+/-- **`parse_params` hands arguments to the body only with a clean context**: a result comes out only if nothing is
+left in `errors` / `tmp_errors` of the CALL's context — an error of a positional, keyword or `*args` item that was
+handled (under collect_errors: collected) is therefore never lost on the way to the final `raise_error`
+(func.py:598 reports a failed `*args` item to the call's context, not to the item's child context) -/
+theorem C04_parse_params_ok_clean (W : DataWorld V) (L : Legacy) (o : Opts) (F : FuncDecl V) (args : List V)
+    (kw : List (Nat × V)) (s s' : St) (p : List V × List (Nat × V))
+    (hok : parseParams W L o F args kw s = (.ok p, s')) : s'.errors = [] ∧ s'.tmp = [] := by
+  unfold parseParams at hok
+  rw [bind_apply] at hok
+  rcases h1 : posArgs W L o F args 0 [] [] s with ⟨r1, s1⟩
+  rw [h1] at hok
+  cases r1 with
+  | raise e => simp at hok
+  | diverge => simp at hok
+  | ok a1 =>
+    obtain ⟨pa, keys⟩ := a1
+    simp only at hok
+    rw [bind_apply] at hok
+    rcases h2 : posOnlyMissing o F F.posOnly pa keys s1 with ⟨r2, s2⟩
+    rw [h2] at hok
+    cases r2 with
+    | raise e => simp at hok
+    | diverge => simp at hok
+    | ok a2 =>
+      obtain ⟨pa2, keys2⟩ := a2
+      simp only at hok
+      rw [bind_apply] at hok
+      rcases h3 : parseData W L o F.parser keys2 kw s2 with ⟨r3, s3⟩
+      rw [h3] at hok
+      cases r3 with
+      | raise e => simp at hok
+      | diverge => simp at hok
+      | ok kw3 =>
+        simp only at hok
+        rw [bind_apply] at hok
+        unfold raiseError at hok
+        by_cases hc : (s3.errors.isEmpty && s3.tmp.isEmpty) = true
+        · simp only [hc, if_true] at hok
+          simp only [pure_apply, Prod.mk.injEq, Res.ok.injEq] at hok
+          obtain ⟨_, rfl⟩ := hok
+          simp only [Bool.and_eq_true, List.isEmpty_iff] at hc
+          exact hc
+        · simp only [hc] at hok
+          simp at hok
+
+/-- hence: an `enterBody` event implies arguments that parsed AND a context without collected errors -/
+theorem C04_body_entered_only_with_clean_context (W : DataWorld V) (hW : W.QuietW) (L : Legacy) (o : Opts) (F : FuncDecl V)
+    (body : List V → List (Nat × V) → M V) (args : List V) (kw : List (Nat × V)) (s : St)
+    (hnot : Ev.enterBody ∉ s.trace)
+    (hin : Ev.enterBody ∈ (syncCall W L o F body args kw s).2.trace) :
+    ∃ p s1, parseParams W L o F args kw s = (.ok p, s1) ∧ s1.errors = [] ∧ s1.tmp = [] := by
+  obtain ⟨p, s1, h⟩ := C04_body_entered_only_after_parse W hW L o F body args kw s hnot hin
+  exact ⟨p, s1, h, C04_parse_params_ok_clean W L o F args kw s s1 p h⟩
 
 /-- **attributes are set only after a clean parse** (trace statement for `Cls(**kw)` and for the running options of
 any other entry): an `attrsSet` event that was not there before implies that `BaseParser.__call__` returned a
